@@ -309,7 +309,11 @@ def analyse(task):
 
         # ---- soundness: every point of the final problem is a valid (stable) matching
         if 'valid' in forms:
-            for name, prop_f in (('valid', spec.valid(J, x, pc_flag, Z)),) + (
+            extra = e2.unlisted(run, last.point)
+            vf_ = spec.valid(J, x, pc_flag, Z)
+            if extra:
+                vf_ = z3.And([vf_] + [t_ == 0 for t_ in extra])     # only projects on the student's list
+            for name, prop_f in (('valid', vf_),) + (
                     (('stable', spec.stable(J, x, Z)),) if stab else ()):
                 fs = pc + wf + [lp.P(last, last.point), z3.Not(prop_f)]
                 res['obligations'] += 1
